@@ -547,6 +547,30 @@ def ro_full_program(rng, pid):
     return {"id": pid, "cfg": {"vol": vol}, "ops": ops, "origin": "ro:full:%d" % (1 if one else 0)}
 
 
+def ro_foreign_program(rng, pid, ft):
+    """a volume written by someone else (read-only, hidden, system and archive attributes in every combination, stamps of other days) and a
+    session of non-mutating calls on a later day: whatever the attributes of an entry say, reading it writes nothing (C13)"""
+    vol, cs, oem = foreign_volume(rng, ft)
+    known = _names_of(vol["tree"])
+    files = [p for p, k in known if k == "f"]
+    dirs = [p for p, k in known if k == "d"]
+    ops = [{"op": "clock", "t": [rng.choice([2024, 2031]), rng.randrange(1, 13), rng.randrange(1, 29), 9, 0, 2, 0]}]
+    for i, fl in enumerate(rng.sample(files, min(len(files), 6))):
+        h = "r%d" % i
+        ops += [{"op": "open_file", "at": "", "path": fl, "as": h}, {"op": "read", "h": h, "len": rng.choice([1, cs, 3 * cs])},
+                {"op": "seek", "h": h, "from": rng.choice(["start", "end"]), "off": 0}, {"op": "read_all", "h": h, "len": 2 * cs}]
+        if rng.random() < 0.5:
+            ops.append({"op": "extents", "h": h})
+        ops.append({"op": rng.choice(["close", "flush", "close"]), "h": h})
+    for dn in dirs[:3]:
+        ops.append({"op": "list", "at": "", "path": dn})
+    ops += [{"op": "list", "at": "", "path": ""}, {"op": "status"}]
+    if rng.random() < 0.4:
+        ops.append({"op": "info"})
+    ops.append({"op": rng.choice(["unmount", "dropfs"])})
+    return {"id": pid, "cfg": {"vol": vol, "oem": oem}, "ops": ops, "origin": "ro:foreign"}
+
+
 def fault_program(pid, cfg, cs):
     """one representative history touching every operation kind (C09): every device call of every
     operation is failed once by the `faults` driver"""
@@ -2121,17 +2145,25 @@ def root_tail_program(rng, pid):
     """a fixed root directory whose last sector is only partly the root's (40 entries of 32 bytes = 2.5 sectors): a file in the first data
     clusters stays what was written while the root fills up to its last entry, and the root's last entries stay what they are while the
     file is rewritten"""
-    cfg = K("K2")
-    cs = 1024
-    ops = [{"op": "create_file", "at": "", "path": "BIG.BIN", "as": "b"}, {"op": "write_all", "h": "b", "pat": 5, "len": 2 * cs + 7}, {"op": "flush", "h": "b"}]
-    for i in range(19):
+    geo = rng.choice(["K2", "s1024", "s4096"])
+    if geo == "K2":
+        cfg, cs, nroot = K("K2"), 1024, 40
+    elif geo == "s1024":      # 112 entries of 32 bytes = 3.5 sectors of 1024 bytes
+        cfg, cs, nroot = {"vol": fmt(2 << 20, bps=1024, bpc=1024, fats=2, root=112, ft=12)}, 1024, 112
+    else:                     # 224 entries = 1.75 sectors of 4096 bytes
+        cfg, cs, nroot = {"vol": fmt(12 << 20, bps=4096, bpc=4096, fats=1, root=224, ft=12)}, 4096, 224
+    # (the file begins with zeros: bytes that, read as directory slots, say "free from here on")
+    ops = [{"op": "create_file", "at": "", "path": "BIG.BIN", "as": "b"}, {"op": "write_all", "h": "b", "data": [0] * cs}, {"op": "write_all", "h": "b", "pat": 5, "len": cs + 7},
+           {"op": "flush", "h": "b"}]
+    for i in range(nroot // 2 - 1):
         ops.append({"op": "create_file", "at": "", "path": "S%02d.TXT" % i})
-        if i % 4 == 3 or i >= 14:
+        if i % 8 == 7 or i >= nroot // 2 - 6:
             ops += [{"op": "seek", "h": "b", "from": "start", "off": 0}, {"op": "read_all", "h": "b", "len": 3 * cs}]
     ops += [{"op": "seek", "h": "b", "from": "start", "off": rng.choice([0, 5, 512])}, {"op": "write_all", "h": "b", "pat": 6, "len": cs}, {"op": "flush", "h": "b"},
             {"op": "list", "at": "", "path": ""}, {"op": "close", "h": "b"}, {"op": "unmount"}, {"op": "list", "at": "", "path": ""},
             {"op": "open_file", "at": "", "path": "BIG.BIN", "as": "r"}, {"op": "read_all", "h": "r", "len": 3 * cs}, {"op": "close", "h": "r"}, {"op": "unmount"}]
-    return {"id": pid, "cfg": cfg, "ops": ops, "origin": "io:root-tail"}
+    # (the listings are not observed here: what the file handle reads is the subject, C01 / C04 judge the tree in their own campaigns)
+    return {"id": pid, "cfg": dict(cfg, obs={"raw": True, "rv": False, "sv": False}), "ops": ops, "origin": "io:root-tail"}
 
 
 def with_remounts(prog, rng, k=2):
